@@ -86,12 +86,15 @@ CHECKS["C08"] = {
 
 def c20_jobs(tier):
     jobs = []
-    ks = [1, 2, 3] if tier == "quick" else [1, 2, 3, 4]
-    for k in ks:
+    if tier == "quick":
+        shapes = [(1, 8, 4), (2, 8, 4), (3, 8, 4)]
+    else:
+        shapes = [(1, 20, 6), (2, 20, 6), (3, 20, 6), (4, 20, 6), (5, 12, 3), (6, 14, 2)]
+    for (k, maxoff, maxlen) in shapes:
         jobs.append({"pkgdir": "feat/gene", "func": "VerifC20_Tiling", "math": True,
-                     "params": {"k": k, "maxoff": 8 if k < 4 else 9, "maxlen": 4 if k < 4 else 3}})
-    for k in ([1, 2] if tier == "quick" else [1, 2, 3]):
-        for spare in (0, 1, 2):
+                     "params": {"k": k, "maxoff": maxoff, "maxlen": maxlen}, "timeout_s": 600 if tier == "quick" else 3000})
+    for k in ([1, 2] if tier == "quick" else [1, 2, 3, 4, 5]):
+        for spare in ((0, 1, 2) if tier == "quick" else (0, 1, 2, 3)):
             jobs.append({"pkgdir": "feat/gene", "func": "VerifC20_Atomic", "math": True, "params": {"k": k, "spare": spare}})
     jobs.append({"pkgdir": "feat", "func": "VerifC20_OneZero", "params": {}})
     return jobs
@@ -102,7 +105,7 @@ CHECKS["C20"] = {
     "functions": ["gene.Exons.{Add,Introns,SplicedLen,Start,End,Location,Less,Swap}", "gene.buildExonsFor", "(*CodingTranscript).{SetExons,UTR5,CDS,UTR3,...}", "(*NonCodingTranscript).SetExons", "(*Gene).SetFeatures",
                   "feat.{BasePositionOf,PositionWithin,BaseOrientationOf,OrientationWithin,OneToZero,ZeroToOne}", "sort.Sort (executed)"],
     "explanation": "symbolic exon offsets/lengths in arbitrary order (all sort orders explored), symbolic CDS bounds, offsets and orientations at transcript and gene level; acceptance is compared with an independent specification; capacity histories built with make(Exons,0,k+spare)",
-    "outside": "more than 4 exons, offsets beyond the stated range, nesting deeper than exon/transcript/gene/chromosome, the two extreme int values for 1-/0-based conversion",
+    "outside": "more than 3 (quick) / 6 (thorough) exons, offsets beyond the stated range, nesting deeper than exon/transcript/gene/chromosome, the two extreme int values for 1-/0-based conversion",
 }
 
 
@@ -526,12 +529,39 @@ def c14_jobs(tier):
               (2, 3, 0, 2, 3, 5, 0), (2, 3, 0, 1, 4, 4, 0), (2, 3, 0, 1, 4, 4, 1)]
     if tier != "quick":
         shapes += [(1, 2, 0, 2, 3, 4, 0), (1, 3, 1, 2, 3, 5, 0), (1, 2, 1, 2, 3, 5, 1), (1, 3, 2, 2, 3, 5, 0),
-                   (2, 4, 1, 1, 5, 5, 0), (2, 3, 0, 2, 5, 4, 0), (2, 2, 0, 3, 3, 5, 0)]
+                   (2, 3, 0, 2, 5, 4, 0), (2, 2, 0, 3, 3, 5, 0)]  # (2,4,1,1,5,5) does not finish in 3000 s (measured)
     for (k, n, e, off, tl, ql, self) in shapes:
         j = {"pkgdir": "align/pals/filter", "func": "VerifC14_Filter", "sched": "det", "fsmodel": True,
              "params": {"k": k, "n": n, "e": e, "offset": off, "tlen": tl, "qlen": ql, "self": self}, "timeout_s": 900 if tier == "quick" else 3000}
         jobs.append(j)
     return jobs
+
+
+def c15_jobs(tier):
+    jobs = []
+    # unit: dp.Aligner.AlignTraps with one trapezoid covering the whole comparison: (|T|, |Q|, minimum hit length, minimum identity %, k)
+    units = [(4, 4, 3, 50, 2), (4, 4, 2, 75, 2)] if tier == "quick" else [(4, 4, 3, 50, 2), (4, 4, 2, 75, 2), (4, 5, 3, 50, 2), (5, 4, 4, 75, 2), (3, 3, 2, 50, 1)]  # 5x5 does not finish in 1500 s (measured)
+    for (t, q, ml, mi, k) in units:
+        jobs.append({"pkgdir": "align/pals/dp", "func": "VerifC15_AlignTraps", "sched": "det", "floatsplit": True,
+                     "params": {"tlen": t, "qlen": q, "minlen": ml, "minid": mi, "k": k}, "timeout_s": 900 if tier == "quick" else 3000})
+    # whole pipeline with explicit parameters: (|T|, |Q|, k, n, e, offset, minimum hit length, minimum identity %)
+    # whole pipeline: the query carries a copy of target[tpos:tpos+plen] at qpos (fewer free letters; the free-query 4x4 instance needs > 900 s)
+    pipes = [(4, 4, 2, 3, 0, 1, 3, 60, 3, 1, 0)] if tier == "quick" else [(4, 4, 2, 3, 0, 1, 3, 60, 3, 1, 0), (5, 5, 2, 4, 0, 2, 4, 75, 4, 0, 1), (4, 4, 2, 3, 0, 1, 3, 60, 0, 0, 0)]
+    for (t, q, k, n, e, off, ml, mi, plen, tpos, qpos) in pipes:
+        jobs.append({"pkgdir": "align/pals", "func": "VerifC15_Pipeline", "sched": "det", "fsmodel": True, "floatsplit": True,
+                     "params": {"tlen": t, "qlen": q, "k": k, "n": n, "e": e, "offset": off, "minlen": ml, "minid": mi, "plen": plen, "tpos": tpos, "qpos": qpos, "recall": 0},
+                     "timeout_s": 900 if tier == "quick" else 3000})
+    return jobs
+
+
+CHECKS["C15"] = {
+    "jobs": c15_jobs,
+    "functions": ["dp.{NewAligner,(*Aligner).AlignTraps}, dp.kernel.{alignRecursion,traceForward,traceReverse,allocateVectors}, dp.Hits sorting", "pals.{New,(*PALS).BuildIndex,Align}, filter.{Filter,NewMerger,MergeFilterHit,FinaliseMerge}, kmerindex, morass (in-memory)",
+                  "float64 arithmetic of the identity test executed on concrete values: every int-to-float conversion case-splits its symbolic integer operand (exact, no float theory)"],
+    "explanation": "FIRST HALF of the property only (hits are real alignments): both sequences symbolic over {a,c,g,t}; every hit returned must lie inside both sequences, be at least the minimum hit length on both, report an error within 1-minId, and a score not above the optimal global alignment score (match +1, mismatch/indel -3; Needleman-Wunsch over the symbolic letters in the harness) of the two hit regions. (A) the banded aligner alone on one trapezoid covering the whole comparison, (B) the whole pipeline with explicit filter and DP parameters.",
+    "level_note": "trusted: gosym's Go SSA semantics (validated each run by native replay of solver witnesses), z3 4.8.12 (sampled queries re-decided by z3 5.1 and cvc5), the harness's Needleman-Wunsch. The claim is limited to the listed tiny shapes, at which gapped hits cannot occur (a gap costs 3, a match earns 1), so the check has little power against changes that only matter at scale; the second half of the property (planted repeats are recovered, complement strand, self comparison) is NOT covered: it speaks about random flanking sequence and kb-scale inputs.",
+    "outside": "the recall half of the property (planted repeats, complement-strand search, trivial self match); sequences longer than 5; PALS.Optimise (parameters are given explicitly); hits with gaps (unreachable at these sizes)",
+}
 
 
 CHECKS["C14"] = {
